@@ -248,9 +248,10 @@ inline void checkMsgPackDoc(Ctx& C, const MValue& mGiven, const MpOpts& o) {
 
 // ------------------------------------------------------------------------------------------ floats, light path
 // one value: set() -> serializeMsgPack into a small buffer -> reference decode -> judge
-inline void checkFloatValue(Ctx& C, JsonDocument& doc, const MValue& m, std::string* firstByte = nullptr) {
-  if (m.kind == MValue::F32) doc.set(m.f);
-  else doc.set(m.d);
+inline void checkFloatValue(Ctx& C, JsonDocument& doc, const MValue& given, std::string* firstByte = nullptr) {
+  if (given.kind == MValue::F32) doc.set(given.f);
+  else doc.set(given.d);
+  const MValue m = configuredModel(given);  // what the document holds in this configuration
   unsigned char buf[16];
   memset(buf, 0xA5, sizeof buf);
   size_t n = serializeMsgPack(doc, buf, sizeof buf);
